@@ -126,3 +126,167 @@ Proof.
   destruct o as [tat|]; [|reflexivity]. destruct (lim <=? tat) eqn:E; [reflexivity|].
   apply N.leb_gt in E. cbn. lia.
 Qed.
+
+(* ---------------------------------------------------------------------------------------------- *)
+(* B. association lists; Limiter *)
+
+Lemma lookup_set_same {A} k (x : A) l : lookup k (set k x l) = Some x.
+Proof.
+  induction l as [|[k' y] r IH]; cbn [set lookup]; [rewrite N.eqb_refl; reflexivity|].
+  destruct (k' =? k) eqn:E; cbn [lookup]; [rewrite N.eqb_refl; reflexivity|]. rewrite E. exact IH.
+Qed.
+
+Lemma lookup_set_other {A} k k' (x : A) l : k' <> k -> lookup k' (set k x l) = lookup k' l.
+Proof.
+  intro H. induction l as [|[k0 y] r IH]; cbn [set lookup].
+  - destruct (N.eqb_spec k k'); [congruence|reflexivity].
+  - destruct (N.eqb_spec k0 k) as [->|E]; cbn [lookup].
+    + destruct (N.eqb_spec k k'); [congruence|reflexivity].
+    + destruct (k0 =? k'); [reflexivity|exact IH].
+Qed.
+
+Lemma keys_set {A} k (x : A) l k' : In k' (map fst (set k x l)) <-> k' = k \/ In k' (map fst l).
+Proof.
+  induction l as [|[k0 y] r IH]; cbn [set map fst In]; [intuition|].
+  destruct (N.eqb_spec k0 k) as [->|E]; cbn [map fst In]; [intuition|]. rewrite IH. intuition.
+Qed.
+
+Lemma nodup_set {A} k (x : A) l : NoDup (map fst l) -> NoDup (map fst (set k x l)).
+Proof.
+  induction l as [|[k0 y] r IH]; cbn [set map fst]; intro H.
+  - constructor; [intros []|constructor].
+  - inversion H as [|a b NI ND]; subst. destruct (N.eqb_spec k0 k) as [->|E]; cbn [map fst].
+    + constructor; assumption.
+    + constructor; [|apply IH; exact ND]. rewrite keys_set. intros [->|Hi]; [congruence|tauto].
+Qed.
+
+Lemma lookup_none_notin {A} k (l : list (N * A)) : ~ In k (map fst l) -> lookup k l = None.
+Proof.
+  induction l as [|[k0 y] r IH]; cbn [lookup map fst In]; [reflexivity|]. intro H.
+  destruct (N.eqb_spec k0 k) as [->|E]; [tauto|]. apply IH. tauto.
+Qed.
+
+Lemma lookup_filter {A} (p : N * A -> bool) k l :
+  NoDup (map fst l) ->
+  lookup k (List.filter p l) =
+  match lookup k l with Some x => if p (k, x) then Some x else None | None => None end.
+Proof.
+  induction l as [|[k0 y] r IH]; cbn [List.filter lookup map fst]; [reflexivity|]. intro H.
+  inversion H as [|a b NI ND]; subst. destruct (N.eqb_spec k0 k) as [->|E].
+  - destruct (p (k, y)); cbn [lookup]; [rewrite N.eqb_refl; reflexivity|].
+    apply lookup_none_notin. intro Hi. apply NI. apply in_map_iff in Hi.
+    destruct Hi as (e & He & Hin). apply filter_In in Hin. rewrite <- He. apply in_map. tauto.
+  - destruct (p (k0, y)); cbn [lookup]; [destruct (N.eqb_spec k0 k); [congruence|]|]; apply IH; exact ND.
+Qed.
+
+Lemma nodup_filter_keys {A} (p : N * A -> bool) l : NoDup (map fst l) -> NoDup (map fst (List.filter p l)).
+Proof.
+  induction l as [|[k0 y] r IH]; cbn [List.filter map fst]; intro H; [constructor|].
+  inversion H as [|a b NI ND]; subst. destruct (p (k0, y)); cbn [map fst]; [|auto].
+  constructor; [|auto]. intro Hi. apply NI. apply in_map_iff in Hi.
+  destruct Hi as (e & He & Hin). apply filter_In in Hin. rewrite <- He. apply in_map. tauto.
+Qed.
+
+Definition wfl (l : limiter) : Prop := NoDup (map fst (tats l)).
+(* every stored TAT is at most tau ahead of the clock *)
+Definition linv (l : limiter) (cur : N) : Prop :=
+  forall k, inv_k (tau l) (lookup k (tats l)) cur.
+
+Lemma gcra_none tau_ t_ o now n : fst (gcra tau_ t_ o now n) = None -> o = None.
+Proof.
+  unfold gcra. destruct (U64 <=? t_ * n); [auto|]. destruct (tau_ <? t_ * n); [auto|].
+  destruct (U64 <=? _); [discriminate|]. destruct (now <? _); [discriminate|].
+  destruct (U64 <=? _); discriminate.
+Qed.
+
+Lemma allows_params l el k n : tau (fst (allows l el k n)) = tau l /\ tt (fst (allows l el k n)) = tt l.
+Proof. unfold allows. destruct (gcra _ _ _ _ _). split; reflexivity. Qed.
+
+Lemma allows_wfl l el k n : wfl l -> wfl (fst (allows l el k n)).
+Proof.
+  unfold wfl, allows. intro H. destruct (gcra _ _ _ _ _) as [[x|] v]; cbn [fst tats]; [apply nodup_set|]; exact H.
+Qed.
+
+Lemma allows_other l el k n k' :
+  k' <> k -> lookup k' (tats (fst (allows l el k n))) = lookup k' (tats l).
+Proof.
+  intro H. unfold allows. destruct (gcra _ _ _ _ _) as [[x|] v]; cbn [fst tats]; [|reflexivity].
+  apply lookup_set_other. exact H.
+Qed.
+
+Lemma allows_same l el k n :
+  el < U64 ->
+  lookup k (tats (fst (allows l el k n))) = fst (gcra (tau l) (tt l) (lookup k (tats l)) el n) /\
+  snd (allows l el k n) = snd (gcra (tau l) (tt l) (lookup k (tats l)) el n).
+Proof.
+  intro H. unfold allows. rewrite (N.mod_small _ _ H).
+  destruct (gcra (tau l) (tt l) (lookup k (tats l)) el n) as [[x|] v] eqn:G; cbn [fst snd tats].
+  - split; [apply lookup_set_same|reflexivity].
+  - split; [|reflexivity]. apply gcra_none with (tau_ := tau l) (t_ := tt l) (now := el) (n := n). rewrite G. reflexivity.
+Qed.
+
+Lemma prune_params l el : tau (prune l el) = tau l /\ tt (prune l el) = tt l.
+Proof. split; reflexivity. Qed.
+
+Lemma prune_wfl l el : wfl l -> wfl (prune l el).
+Proof. unfold wfl, prune. cbn [tats]. apply nodup_filter_keys. Qed.
+
+Lemma prune_lookup l el k :
+  wfl l -> el < U64 ->
+  lookup k (tats (prune l el)) =
+  match lookup k (tats l) with Some tat => if el <=? tat then Some tat else None | None => None end.
+Proof.
+  intros W H. unfold prune. cbn [tats]. rewrite (N.mod_small _ _ H).
+  rewrite (lookup_filter (fun e => el <=? snd e) k (tats l) W). reflexivity.
+Qed.
+
+(* what one call does, when nothing can overflow *)
+Lemma allows_facts l cur el k n :
+  wfl l -> linv l cur -> cur <= el -> el + tau l + tau l < U64 ->
+  let l1 := fst (allows l el k n) in
+  let v := snd (allows l el k n) in
+  let o := lookup k (tats l) in
+  linv l1 el /\
+  (verdict_ok v = true ->
+     lookup k (tats l1) = Some (eff o el + tt l * n) /\ eff o el + tt l * n <= el + tau l) /\
+  (verdict_ok v = false -> lookup k (tats l1) = o).
+Proof.
+  intros W I L Hov. cbv zeta.
+  assert (Hel : el < U64) by lia.
+  destruct (allows_same l el k n Hel) as [Es Ev]. rewrite Ev.
+  destruct (allows_params l el k n) as [Pt _].
+  pose proof (inv_k_eff _ _ _ el (I k) L) as He.
+  assert (Hcore :
+    (verdict_ok (snd (gcra (tau l) (tt l) (lookup k (tats l)) el n)) = true ->
+       fst (gcra (tau l) (tt l) (lookup k (tats l)) el n) = Some (eff (lookup k (tats l)) el + tt l * n) /\
+       eff (lookup k (tats l)) el + tt l * n <= el + tau l) /\
+    (verdict_ok (snd (gcra (tau l) (tt l) (lookup k (tats l)) el n)) = false ->
+       fst (gcra (tau l) (tt l) (lookup k (tats l)) el n) = lookup k (tats l))).
+  { destruct (N.le_gt_cases (tt l * n) (tau l)) as [Ha|Ha].
+    - destruct (gcra_cases (tau l) (tt l) (lookup k (tats l)) el n Ha ltac:(lia))
+        as [[Hacc ->]|[Hrej (tat & Eo & Ht & ->)]]; cbn [fst snd verdict_ok].
+      + split; [intros _; split; [reflexivity|exact Hacc]|discriminate].
+      + split; [discriminate|intros _; symmetry; exact Eo].
+    - destruct (gcra_too_large (tau l) (tt l) (lookup k (tats l)) el n ltac:(lia)) as [E1 E2].
+      rewrite E2. split; [discriminate|intros _; exact E1]. }
+  destruct Hcore as [Hok Hno]. split; [|split].
+  - intro k'. rewrite Pt. destruct (N.eq_dec k' k) as [->|NE].
+    + rewrite Es. destruct (verdict_ok (snd (gcra (tau l) (tt l) (lookup k (tats l)) el n))) eqn:V.
+      * destruct (Hok eq_refl) as [-> Hle]. cbn. exact Hle.
+      * rewrite (Hno eq_refl). specialize (I k). destruct (lookup k (tats l)); cbn in *; lia.
+    + rewrite (allows_other l el k n k' NE). specialize (I k'). destruct (lookup k' (tats l)); cbn in *; lia.
+  - intro V. rewrite Es. exact (Hok V).
+  - intro V. rewrite Es. exact (Hno V).
+Qed.
+
+Lemma prune_linv l cur el : wfl l -> linv l cur -> cur <= el -> el < U64 -> linv (prune l el) el.
+Proof.
+  intros W I L H k. rewrite (prune_lookup l el k W H). cbn [tau prune]. specialize (I k).
+  destruct (lookup k (tats l)) as [tat|]; [|exact Logic.I]. destruct (el <=? tat); cbn in *; [lia|exact Logic.I].
+Qed.
+
+Lemma prune_eff l el k : wfl l -> el < U64 -> eff (lookup k (tats (prune l el))) el = eff (lookup k (tats l)) el.
+Proof.
+  intros W H. rewrite (prune_lookup l el k W H). destruct (lookup k (tats l)) as [tat|]; [|reflexivity].
+  destruct (el <=? tat) eqn:E; [reflexivity|]. apply N.leb_gt in E. cbn. lia.
+Qed.
